@@ -683,6 +683,13 @@ def _expand(helper, call, caller, cls, target_names: set, mode: str, tuple_targe
     if bound is None:
         return None
     rets = _returns(helper)
+    if mode == "expr" and rets and any(r.value is not None for r, _ in rets) and all(r.value is None or _simple_expr(r.value) for r, _ in rets):
+        # the call is a statement: a result that is a plain name / attribute / constant is evaluated for nothing
+        helper = copy.deepcopy(helper)
+        for x in ast.walk(helper):
+            if isinstance(x, ast.Return):
+                x.value = None
+        rets = _returns(helper)
     if mode == "expr" and rets and not (len(rets) == 1 and rets[0][1] == 0 and rets[0][0] is helper.body[-1]) \
             and all(r.value is None or (isinstance(r.value, ast.Constant) and r.value.value is None) for r, _ in rets):
         # a procedure with early `return`s: guard clauses read as nesting, `return` inside its final loop read as `break`
